@@ -8,10 +8,26 @@ import os
 cd = adapters.load_model_cd()
 M = adapters.ModelNP
 MAXN, MAXB, MAXK = [int(x) for x in os.environ.get('C03_BOUNDS', '6,4,3').split(',')]
+SL_FIXED = int(os.environ.get('C03_SL', '-1'))     # one CrossHair process per way of obtaining the dataset
 
 
-def make_dataset(cdm, A, vals, pp):
-  feats = {'a': A.arr(vals, 'int32'), 'img': A.arr([(v, v + 1) for v in vals], 'uint8', (2,))}
+INF = float('inf')
+
+
+def concrete(x, lo, hi):
+  """Branch on a small symbolic int so that the rest of the path runs on a concrete Python int."""
+  for v in range(lo, hi + 1):
+    if x == v:
+      return v
+  raise ValueError(x)
+
+
+def make_dataset(cdm, A, vals, pp, sl=0):
+  """sl 0: the dataset as constructed; 1 / 2: the same rows obtained by slicing a longer parent dataset (prefix / inner slice).
+  Feature 'f' holds a non-finite float in every row (a missing-value encoding): padding must still be exact zeros."""
+  pad_lo, pad_hi = ([], [77, 78]) if sl == 1 else (([66], [77]) if sl == 2 else ([], []))
+  allv = pad_lo + list(vals) + pad_hi
+  feats = {'a': A.arr(allv, 'int32'), 'img': A.arr([(v, v + 1) for v in allv], 'uint8', (2,)), 'f': A.arr([INF for _ in allv], 'float32')}
   fns = []
   if pp >= 2:
     def inplace(x):                                             # a preprocessor that modifies the mapping it is given
@@ -21,11 +37,14 @@ def make_dataset(cdm, A, vals, pp):
   if pp >= 1:
     fns.append(lambda x: {**x, 'y': x['a'] * 2 + 1})          # derived feature, does not map 0 to 0
   pre = cdm.BatchPreprocessor(fns) if fns else cdm.NoOpBatchPreprocessor
-  return cdm.ClientDataset(feats, pre), feats
+  ds = cdm.ClientDataset(feats, pre)
+  if sl:
+    ds = ds[len(pad_lo):len(pad_lo) + len(vals)]
+  return ds, ds.raw_examples
 
 
 def expected_features(vals, pp):
-  exp = {'a': [v + 1 if pp >= 2 else v for v in vals], 'img': [(v, v + 1) for v in vals]}
+  exp = {'a': [v + 1 if pp >= 2 else v for v in vals], 'img': [(v, v + 1) for v in vals], 'f': [INF for _ in vals]}
   if pp >= 1:
     exp['y'] = [a * 2 + 1 for a in exp['a']]
   return exp
@@ -42,9 +61,11 @@ def bucket_rule(rem, b, k):
   return min(ok)
 
 
-def check_padded(cdm, A, vals, batch_size, buckets, pp):
+def check_padded(cdm, A, vals, batch_size, buckets, pp, sl=0):
   n = len(vals)
-  ds, feats = make_dataset(cdm, A, vals, pp)
+  ds, feats = make_dataset(cdm, A, vals, pp, sl)
+  if len(ds) != n:
+    return False
   raw_before = {k: (A.rows(v), A.dtype(v), A.trailing(v)) for k, v in feats.items()}
   view = ds.padded_batch(batch_size=batch_size, num_batch_size_buckets=buckets)
   exp = expected_features(vals, pp)
@@ -74,7 +95,7 @@ def check_padded(cdm, A, vals, batch_size, buckets, pp):
         if A.trailing(b[f]) != ((2,) if f == 'img' else ()):
           return False
         got[f].extend(rows[:k])
-      if A.dtype(b['a']) != 'int32' or A.dtype(b['img']) != 'uint8' or A.dtype(b[cdm.EXAMPLE_MASK_KEY]) != 'bool':
+      if A.dtype(b['a']) != 'int32' or A.dtype(b['img']) != 'uint8' or A.dtype(b['f']) != 'float32' or A.dtype(b[cdm.EXAMPLE_MASK_KEY]) != 'bool':
         return False
     if got != exp:                                          # every example once, in order
       return False
@@ -94,9 +115,11 @@ def check_padded(cdm, A, vals, batch_size, buckets, pp):
   return raw_after == raw_before                            # the dataset is never mutated
 
 
-def check_plain(cdm, A, vals, batch_size, drop, pp):
+def check_plain(cdm, A, vals, batch_size, drop, pp, sl=0):
   n = len(vals)
-  ds, feats = make_dataset(cdm, A, vals, pp)
+  ds, feats = make_dataset(cdm, A, vals, pp, sl)
+  if len(ds) != n:
+    return False
   raw_before = {k: (A.rows(v), A.dtype(v), A.trailing(v)) for k, v in feats.items()}
   view = ds.batch(batch_size=batch_size, drop_remainder=drop)
   exp = expected_features(vals, pp)
@@ -133,15 +156,16 @@ def check_final_size(cdm, n, batch_size, buckets):
 
 
 # ---- contracts ------------------------------------------------------------------------------------------
-def padded(vals: List[int], batch_size: int, buckets: int, pp: int) -> bool:
+def padded(vals: List[int], batch_size: int, buckets: int, pp: int, sl: int) -> bool:
   """
   pre: len(vals) <= MAXN
   pre: 1 <= batch_size <= MAXB
   pre: 1 <= buckets <= MAXK
   pre: 0 <= pp <= 2
+  pre: 0 <= sl <= 2 and (SL_FIXED < 0 or sl == SL_FIXED)
   post: __return__
   """
-  return check_padded(cd, M, vals, batch_size, buckets, pp)
+  return check_padded(cd, M, vals, batch_size, buckets, pp, concrete(sl, 0, 2))
 
 
 def padded_reach(vals: List[int], batch_size: int, buckets: int, pp: int) -> bool:
@@ -155,14 +179,15 @@ def padded_reach(vals: List[int], batch_size: int, buckets: int, pp: int) -> boo
   return check_padded(cd, M, vals, batch_size, buckets, pp)
 
 
-def plain(vals: List[int], batch_size: int, drop: bool, pp: int) -> bool:
+def plain(vals: List[int], batch_size: int, drop: bool, pp: int, sl: int) -> bool:
   """
   pre: len(vals) <= MAXN
   pre: 1 <= batch_size <= MAXB
   pre: 0 <= pp <= 2
+  pre: 0 <= sl <= 2 and (SL_FIXED < 0 or sl == SL_FIXED)
   post: __return__
   """
-  return check_plain(cd, M, vals, batch_size, drop, pp)
+  return check_plain(cd, M, vals, batch_size, drop, pp, concrete(sl, 0, 2))
 
 
 def final_size(n: int, batch_size: int, buckets: int) -> bool:
